@@ -39,6 +39,7 @@ type pxFrame struct {
 	// cell of the creating frame they stand for
 	fvTerm map[*ssa.FreeVar]*Term
 	fvCell map[*ssa.FreeVar]string
+	clo    *pxClosure // the closure record the frame was entered through (nil: a plain function)
 	// the frame was entered through a function value (not a static call)
 	viaValue bool
 }
@@ -48,6 +49,10 @@ type pxClosure struct {
 	fn    *ssa.Function
 	binds []*Term  // binding terms at creation
 	cells []string // per binding: the local cell it is the address of ("" if none)
+	// the instruction that made it and the frame that executed it (the values
+	// behind the bindings: byte sequences of captured buffers, pxbytes.go)
+	mc    *ssa.MakeClosure
+	maker *pxFrame
 }
 
 type pxState struct {
@@ -185,7 +190,18 @@ func (p *PX) term(v ssa.Value, fr *pxFrame, st *pxState) *Term {
 		}
 		return &Term{K: TLeaf, V: v, T: v.Type(), key: "<" + fr.id + "p:" + x.Name() + ">"}
 	case *ssa.FreeVar:
+		// inside a function literal that was stepped into: the value captured when it was made
 		if t, ok := fr.fvTerm[x]; ok {
+			return t
+		}
+	case *ssa.Function:
+		return fnTerm(x)
+	case *ssa.Global:
+		if t := p.roGlobalTerm(x); t != nil {
+			return t
+		}
+	case *ssa.FieldAddr:
+		if t := p.roFieldAddr(p.term(x.X, fr, st), x.Field, v.Type()); t != nil {
 			return t
 		}
 	case *ssa.Phi:
@@ -194,18 +210,11 @@ func (p *PX) term(v ssa.Value, fr *pxFrame, st *pxState) *Term {
 		}
 	case *ssa.BinOp:
 		a, b := p.term(x.X, fr, st), p.term(x.Y, fr, st)
-		// a function value known on this path is not nil
-		if x.Op == token.EQL || x.Op == token.NEQ {
-			if (p.isFuncValue(a) && strings.HasPrefix(b.key, "nil:")) || (p.isFuncValue(b) && strings.HasPrefix(a.key, "nil:")) {
-				r := x.Op == token.NEQ
-				return &Term{K: TBoolConst, Bool: r, T: v.Type(), key: fmt.Sprintf("%v", r)}
-			}
-			// a concrete value boxed into an interface (`return newCodecError(…)` from a
-			// function stepped into) is a non-nil interface value
-			if (isBoxed(a) && strings.HasPrefix(b.key, "nil:")) || (isBoxed(b) && strings.HasPrefix(a.key, "nil:")) {
-				r := x.Op == token.NEQ
-				return &Term{K: TBoolConst, Bool: r, T: v.Type(), key: fmt.Sprintf("%v", r)}
-			}
+		// x == nil / x != nil for a value that cannot be nil: a function value known on
+		// this path, an address, a concrete value boxed into an interface (`return
+		// newCodecError(…)` from a function stepped into; Go semantics) — pxro.go knownNonNil
+		if t := nilCompare(x.Op, a, b, v.Type()); t != nil {
+			return t
 		}
 		// (x >> a) >> b = x >> (a+b) for constant shifts of the same signedness (bits >>= 8 in a loop)
 		if x.Op == token.SHR && b.K == TConst && a.K == TBin && a.Op == token.SHR && a.B.K == TConst && types.Identical(a.T, v.Type()) {
@@ -217,15 +226,6 @@ func (p *PX) term(v ssa.Value, fr *pxFrame, st *pxState) *Term {
 		if (x.Op == token.SUB || x.Op == token.ADD) && b.K == TConst && a.K == TBin && a.B.K == TConst && a.B.C.Cmp(b.C) == 0 &&
 			((x.Op == token.SUB && a.Op == token.ADD) || (x.Op == token.ADD && a.Op == token.SUB)) && types.Identical(a.T, v.Type()) {
 			return a.A
-		}
-		// an interface made from a concrete value is never the nil interface (Go semantics)
-		if x.Op == token.EQL || x.Op == token.NEQ {
-			for _, pr := range [][2]*Term{{a, b}, {b, a}} {
-				if _, boxed := pr[0].V.(*ssa.MakeInterface); boxed && pr[0].K == TLeaf && strings.HasPrefix(pr[1].key, "nil:") {
-					r := x.Op == token.NEQ
-					return &Term{K: TBoolConst, Bool: r, T: v.Type(), key: fmt.Sprintf("%v", r)}
-				}
-			}
 		}
 		t := &Term{K: TBin, Op: x.Op, A: a, B: b, T: v.Type(), key: "(" + a.key + " " + x.Op.String() + " " + b.key + ")"}
 		if a.K == TConst && b.K == TConst {
@@ -262,14 +262,36 @@ func (p *PX) term(v ssa.Value, fr *pxFrame, st *pxState) *Term {
 			if t := p.w.ctabTermOf(v, func(iv ssa.Value) *Term { return p.term(iv, fr, st) }); t != nil {
 				return t
 			}
-			if fa, ok := x.X.(*ssa.FieldAddr); ok {
-				// a field of a local struct: the value last stored there on this path
-				// (directly, or as a component of a whole-struct assignment), unless the
-				// field may have been written since through another pointer
-				if al, isLocal := fa.X.(*ssa.Alloc); isLocal {
-					fk := fmt.Sprintf("%s.%d", p.reg(fr, al), fa.Field)
-					if t, ok := st.vals[fk]; ok && p.fieldVerKey(fieldID(fa), st) == p.localFieldVer(fk, st) {
+			// a load from a read-only package table: what the initialiser stored there (roinit.go)
+			if g, ok := x.X.(*ssa.Global); ok {
+				if t := p.roGlobalSlice(g, v.Type()); t != nil {
+					return t
+				}
+			}
+			switch x.X.(type) {
+			case *ssa.Global, *ssa.FieldAddr, *ssa.IndexAddr, *ssa.Parameter, *ssa.Phi, *ssa.Call, *ssa.Extract, *ssa.FreeVar:
+				if kind, root, path, ok := roParts(p.term(x.X, fr, st)); ok && kind == "ro&" {
+					if t := p.roLoadTerm(root, path, fr, st); t != nil {
 						return t
+					}
+				}
+			}
+			if fa, ok := x.X.(*ssa.FieldAddr); ok {
+				// a field of a local struct variable (also one captured by the function literal
+				// being explored): the value last stored there on this path (directly, or as a
+				// component of a whole-struct assignment), unless the field may have been
+				// written since through another pointer; failing that the component of the
+				// value last stored into the whole variable
+				if cell, isCell := p.cellOf(fa.X, fr); isCell {
+					fk := fmt.Sprintf("%s.%d", strings.TrimSuffix(cell, "*"), fa.Field)
+					if t, ok := st.vals[fk]; ok {
+						if p.fieldVerKey(fieldID(fa), st) == p.localFieldVer(fk, st) {
+							return t
+						}
+					} else if whole, ok := st.vals[cell]; ok {
+						if t := p.componentOf(whole, fa.Field, fr, st); t != nil {
+							return t
+						}
 					}
 				}
 				key := p.fieldLoadKey(fa, fr, st)
@@ -285,12 +307,12 @@ func (p *PX) term(v ssa.Value, fr *pxFrame, st *pxState) *Term {
 			}
 			// a variable captured by reference, read inside the function literal: the
 			// value last stored in the creating frame's cell on this path
-			if fv, ok := x.X.(*ssa.FreeVar); ok {
-				if cell := fr.fvCell[fv]; cell != "" {
-					if t, ok := st.vals[cell+"*"]; ok {
+			if _, ok := x.X.(*ssa.FreeVar); ok {
+				if cell, ok := p.cellOf(x.X, fr); ok {
+					if t, ok := st.vals[cell]; ok {
 						return t
 					}
-					return &Term{K: TLeaf, V: v, T: v.Type(), key: "<*" + cell + ">"}
+					return &Term{K: TLeaf, V: v, T: v.Type(), key: "<*" + strings.TrimSuffix(cell, "*") + ">"}
 				}
 			}
 			// load of a local variable: the value last stored on this path
@@ -339,25 +361,6 @@ func (p *PX) term(v ssa.Value, fr *pxFrame, st *pxState) *Term {
 				if t := p.tableLoad(ia, v.Type(), fr, st); t != nil {
 					return t
 				}
-				// element of an immutable package-level table of constants at an index decided on this path
-				if g, ok := ia.X.(*ssa.Global); ok {
-					if vals, ok := p.w.globalArrayConsts(g); ok {
-						it := p.term(ia.Index, fr, st)
-						var idx *big.Int
-						if it.K == TConst {
-							idx = it.C
-						} else if s, _ := p.evalTerm(it, st); s != nil && s.Card().Cmp(one) == 0 {
-							idx = s.Min()
-						}
-						if idx != nil && idx.IsInt64() && idx.Int64() >= 0 && idx.Int64() < int64(len(vals)) {
-							c := vals[idx.Int64()]
-							if b, isB := v.Type().Underlying().(*types.Basic); isB && b.Info()&types.IsBoolean != 0 {
-								return &Term{K: TBoolConst, Bool: c.Sign() != 0, T: v.Type(), key: fmt.Sprintf("%v", c.Sign() != 0)}
-							}
-							return &Term{K: TConst, C: c, T: v.Type(), key: c.String()}
-						}
-					}
-				}
 				// element of a symbolic byte sequence
 				if bs := p.byteSeqOf(ia.X, fr, st); bs != nil {
 					if it := p.term(ia.Index, fr, st); it.K == TConst && it.C.IsInt64() {
@@ -383,13 +386,17 @@ func (p *PX) term(v ssa.Value, fr *pxFrame, st *pxState) *Term {
 			return t
 		}
 		a := p.term(x.X, fr, st)
-		// a field of a struct value whose components are known on this path
-		if a.K == TPure && a.Name == "struct" && x.Field < len(a.Args) && !strings.HasPrefix(a.Args[x.Field].key, "zero:") {
-			return a.Args[x.Field]
+		// a field of a struct value whose components are known on this path (built
+		// field by field, or a row of a read-only table copied by value)
+		if t := p.componentOf(a, x.Field, fr, st); t != nil {
+			return t
 		}
 		return &Term{K: TLeaf, V: v, T: v.Type(), key: fmt.Sprintf("fld(%s,.%d)", a.key, x.Field)}
 	case *ssa.IndexAddr:
 		a, i := p.term(x.X, fr, st), p.term(x.Index, fr, st)
+		if t := p.roIndexAddr(a, i, v.Type()); t != nil {
+			return t
+		}
 		return &Term{K: TLeaf, V: v, T: v.Type(), key: "idx(" + a.key + "," + i.key + ")"}
 	case *ssa.Convert:
 		a := p.term(x.X, fr, st)
@@ -414,6 +421,13 @@ func (p *PX) term(v ssa.Value, fr *pxFrame, st *pxState) *Term {
 			return p.term(x.X, fr, st)
 		}
 	case *ssa.Index:
+		if a := p.term(x.X, fr, st); a.K == TPure && a.Name == "roval" {
+			if i := p.term(x.Index, fr, st); i.K == TConst && i.C.IsInt64() {
+				if t := p.roComponent(a, int(i.C.Int64()), fr, st); t != nil {
+					return t
+				}
+			}
+		}
 		if b, ok := x.X.Type().Underlying().(*types.Basic); ok && b.Info()&types.IsString != 0 {
 			a, i := p.term(x.X, fr, st), p.term(x.Index, fr, st)
 			return &Term{K: TPure, Name: "strindex", Args: []*Term{a, i}, T: v.Type(), key: "idx(" + a.key + "," + i.key + ")"}
@@ -422,6 +436,11 @@ func (p *PX) term(v ssa.Value, fr *pxFrame, st *pxState) *Term {
 			return t
 		}
 	case *ssa.Slice:
+		if !isByteSlice(x.Type()) {
+			if t := p.roSlice(p.term(x.X, fr, st), x, fr, st); t != nil {
+				return t
+			}
+		}
 		if p.views {
 			return p.sliceView(x, fr, st)
 		}
@@ -657,6 +676,22 @@ func (p *PX) instrs(fr *pxFrame, b *ssa.BasicBlock, from int, st *pxState, k pxC
 			stepIn = p.hooks.onInstr(fr, in, st)
 		}
 		switch x := in.(type) {
+		case *ssa.Alloc:
+			// a variable cell starts with the zero value of its type (also when the
+			// Alloc is executed again in a loop: it is a new variable)
+			cell := p.reg(fr, x) + "*"
+			delete(st.vals, cell)
+			delete(st.bseq, cell)
+			if pt, ok := x.Type().Underlying().(*types.Pointer); ok {
+				if z := zeroOf(pt.Elem()); z != nil {
+					st.vals[cell] = z
+				}
+				if stt, ok := pt.Elem().Underlying().(*types.Struct); ok {
+					for i := 0; i < stt.NumFields(); i++ {
+						delete(st.vals, fmt.Sprintf("%s.%d", p.reg(fr, x), i))
+					}
+				}
+			}
 		case *ssa.MakeSlice:
 			if lt := p.term(x.Len, fr, st); p.views || lt.K == TConst {
 				// the length the slice is made with, as of now
@@ -669,18 +704,33 @@ func (p *PX) instrs(fr *pxFrame, b *ssa.BasicBlock, from int, st *pxState, k pxC
 				st.vals[p.reg(fr, x)] = p.term(x, fr, st)
 			}
 		case *ssa.Store:
+			// a whole-struct store advances the versions of all fields of the type: first,
+			// so that the components recorded for a local (splitStruct) carry the new versions
+			p.structStore(x, st)
 			// local variable cells and symbolic byte sequences
 			if al, ok := x.Addr.(*ssa.Alloc); ok {
 				vt := p.term(x.Val, fr, st)
 				st.vals[p.reg(fr, al)+"*"] = vt
+				// a store to the whole variable replaces what was stored field by field: the
+				// fields are now the components of the value
+				if stt, ok := x.Val.Type().Underlying().(*types.Struct); ok {
+					for i := 0; i < stt.NumFields(); i++ {
+						delete(st.vals, fmt.Sprintf("%s.%d", p.reg(fr, al), i))
+					}
+				}
 				p.splitStruct(fr, al, vt, st)
 			}
-			if fv, ok := x.Addr.(*ssa.FreeVar); ok {
-				if cell := fr.fvCell[fv]; cell != "" {
-					st.vals[cell+"*"] = p.term(x.Val, fr, st)
+			if _, ok := x.Addr.(*ssa.FreeVar); ok {
+				// a variable captured by reference: the cell of the frame that made the closure
+				if cell, ok := p.cellOf(x.Addr, fr); ok {
+					st.vals[cell] = p.term(x.Val, fr, st)
+					if bs := p.byteSeqOf(x.Val, fr, st); bs != nil {
+						st.bseq[cell] = bs
+					} else {
+						delete(st.bseq, cell)
+					}
 				}
 			}
-			p.structStore(x, st)
 			if fa, ok := x.Addr.(*ssa.FieldAddr); ok {
 				vt := p.term(x.Val, fr, st)
 				p.bumpField(fieldID(fa), st)
@@ -728,26 +778,37 @@ func (p *PX) instrs(fr *pxFrame, b *ssa.BasicBlock, from int, st *pxState, k pxC
 			p.appendCells(x, fr, st)
 			// a method expression `(*T).M(recv, args…)` calls M through a thunk with M's own operands
 			sc := p.w.unthunk(x.Call.StaticCallee())
+			// a call of a function value known on this path (pxfuncs.go): a closure or a
+			// method value made on the path (held in a variable, a parameter, a struct
+			// component), an entry of a constant / read-only table — from here on an
+			// ordinary static call
 			var clo *pxClosure
 			var recvTerm *Term
-			if sc == nil && stepIn {
-				// a call of a function value known on this path (pxfuncs.go)
-				sc, clo, recvTerm = p.funcValueCallee(x, fr, st)
+			if sc == nil || len(sc.FreeVars) > 0 {
+				if fn, c, recv := p.funcValueCallee(x, fr, st); fn != nil {
+					sc, clo, recvTerm = fn, c, recv
+				}
 			}
-			if sc == nil || !stepIn {
+			inl := sc != nil && stepIn && p.defaultInline(fr, sc)
+			if inl && p.hooks.inline != nil {
+				inl = p.hooks.inline(fr, sc)
+			}
+			if inl && len(sc.FreeVars) > 0 && clo == nil {
+				inl = false // a closure whose captured variables are not known
+			}
+			if !inl {
 				if sc != nil {
 					p.callEffects(sc, st)
 					p.recordCall(x, sc, fr, st)
 				}
-				continue
-			}
-			inl := p.defaultInline(fr, sc)
-			if inl && p.hooks.inline != nil {
-				inl = p.hooks.inline(fr, sc)
-			}
-			if !inl {
-				p.callEffects(sc, st)
-				p.recordCall(x, sc, fr, st)
+				// the closure called, and closures handed to code that is not followed, run
+				// out of sight: what they captured by reference is no longer known
+				p.killCaptured(clo, st)
+				for _, a := range x.Call.Args {
+					if amc, ok := a.(*ssa.MakeClosure); ok {
+						p.killCaptured(p.closures[p.term(amc, fr, st).key], st)
+					}
+				}
 				continue
 			}
 			p.seq++
@@ -768,7 +829,7 @@ func (p *PX) instrs(fr *pxFrame, b *ssa.BasicBlock, from int, st *pxState, k pxC
 			}
 			child.viaValue = x.Call.StaticCallee() == nil
 			if clo != nil && recvTerm == nil {
-				child.fvTerm, child.fvCell = map[*ssa.FreeVar]*Term{}, map[*ssa.FreeVar]string{}
+				child.clo, child.fvTerm, child.fvCell = clo, map[*ssa.FreeVar]*Term{}, map[*ssa.FreeVar]string{}
 				for i, fv := range sc.FreeVars {
 					if i < len(clo.binds) {
 						child.fvTerm[fv] = clo.binds[i]
@@ -841,6 +902,29 @@ func (p *PX) instrs(fr *pxFrame, b *ssa.BasicBlock, from int, st *pxState, k pxC
 				_ = cs
 			}
 			decided := tok != fok
+			if decided && c.K == TBoolConst && countedTest(x.Cond, b) {
+				// a counted loop whose exit test is a comparison of constants on this path (a
+				// scan over a constant table, i < 4 with i = 0, 1, 2 …) terminates by itself:
+				// each pass through its header starts a new iteration, in which the undecided
+				// branches of the body may be taken again — the cap on undecided revisits is
+				// per iteration, not per loop.  (A test merely decided by a fact about a
+				// symbol that the body does not change, or a φ of constants that is not a
+				// counter — `for first := true; ; first = false` — would never end.)
+				for _, lp := range p.loopsOf(fr.fn) {
+					if lp.header != b {
+						continue
+					}
+					next := b.Succs[1]
+					if tok {
+						next = b.Succs[0]
+					}
+					if lp.body[next] {
+						for bb := range lp.body {
+							delete(st.visits, fmt.Sprintf("%s%d", fr.id, bb.Index))
+						}
+					}
+				}
+			}
 			if tok && fok {
 				s2 := st.clone()
 				s2.env = fe
@@ -892,6 +976,9 @@ func (p *PX) enter(fr *pxFrame, from, to *ssa.BasicBlock, st *pxState, k pxCont,
 
 // lenTerm: len(a); the length of append(s, k elements) is len(s)+k.
 func (p *PX) lenTerm(a *Term, t types.Type) *Term {
+	if n, ok := roLen(a); ok {
+		return constT(n, t)
+	}
 	if a.K == TPure && a.Name == "view" && len(a.Args) == 3 {
 		return subT(a.Args[2], a.Args[1], t)
 	}
@@ -970,11 +1057,12 @@ func (p *PX) splitStruct(fr *pxFrame, al *ssa.Alloc, vt *Term, st *pxState) {
 		var ft *Term
 		if vt.K == TPure && vt.Name == "struct" && len(vt.Args) == stt.NumFields() {
 			ft = vt.Args[i]
+		} else if c := p.componentOf(vt, i, fr, st); c != nil {
+			ft = c // a row of a read-only table copied by value
 		} else {
 			ft = &Term{K: TLeaf, T: stt.Field(i).Type(), key: fmt.Sprintf("fld(%s,.%d)", vt.key, i)}
 		}
-		fid := fmt.Sprintf("%s.%d", id, i)
-		p.bumpField(fid, st)
+		fid := fmt.Sprintf("%s.%d", id, i) // (its version was advanced by structStore)
 		fk := fmt.Sprintf("%s.%d", p.reg(fr, al), i)
 		st.vals[fk] = ft
 		st.vals[fk+"@"] = st.vals["ver:"+fid]
@@ -1158,4 +1246,32 @@ func (st *pxState) originOf(t *Term) *Term {
 		return nil
 	}
 	return st.vals["call:"+k[1:len(k)-1]]
+}
+
+// countedTest: cond compares a counter φ of block b (φ(init, φ±k), possibly
+// already stepped: φ±k) with something else — the exit test of a counted loop.
+func countedTest(cond ssa.Value, b *ssa.BasicBlock) bool {
+	bo, ok := cond.(*ssa.BinOp)
+	if !ok {
+		return false
+	}
+	switch bo.Op {
+	case token.LSS, token.LEQ, token.GTR, token.GEQ, token.NEQ:
+	default:
+		return false
+	}
+	isCounter := func(v ssa.Value) bool {
+		if st, ok := v.(*ssa.BinOp); ok && (st.Op == token.ADD || st.Op == token.SUB) {
+			if _, isC := st.Y.(*ssa.Const); isC {
+				v = st.X
+			}
+		}
+		phi, ok := v.(*ssa.Phi)
+		if !ok || phi.Block() != b {
+			return false
+		}
+		_, isCnt := counterStep(phi)
+		return isCnt
+	}
+	return isCounter(bo.X) || isCounter(bo.Y)
 }
